@@ -71,6 +71,37 @@ def d1(chk, prog):
     chk.ok("lost-write", f"{n} functions of cnvlib.segmentation scanned", cells=n)
 
 
+def d2b(chk, prog):
+    """transfer_fields with the real iter_slices on literal bins whose index labels are not their positions (a filtered / re-ordered table) and segments whose labels repeat"""
+    fi = prog.fn(TF)
+    tb = Table(chk, "index-kind", "transfer_fields on literal bins whose index labels are not their row positions (out of range, and a permutation of 0..n-1), with / without weights: each segment aggregates its own bins", fi.loc(), fi.qn + "::bins by label")
+    genes = ["A", "A", "-", "B", "B", "C"]
+    w = [Fr(1, 2), Fr(1, 4), Fr(1, 8), Fr(1, 3), Fr(1, 5), Fr(1, 7)]
+    d = [Fr(10), Fr(20), Fr(30), Fr(40), Fr(50), Fr(60)]
+    seg_bins = [[0, 1, 2], [3], [4, 5]]
+    for labels, weighted in itertools.product(([7, 3, 9, 11, 2, 5], [3, 0, 4, 1, 5, 2], [0, 1, 2, 3, 4, 5]), (True, False)):
+        W.reset()
+        rows = [dict(chromosome="chr1" if i < 4 else "chr2", start=100 * i, end=100 * i + 50, gene=genes[i], log2=Fr(i, 10), depth=d[i]) for i in range(6)]
+        if weighted:
+            for i in range(6):
+                rows[i]["weight"] = w[i]
+        bins = make_ga("CopyNumArray", rows, {"sample_id": "S"}, index="any", exact=True, labels=labels)
+        segs = make_ga("CopyNumArray", [dict(chromosome="chr1", start=0, end=250, gene="-", log2=0, probes=3), dict(chromosome="chr1", start=300, end=350, gene="-", log2=0, probes=1),
+                                        dict(chromosome="chr2", start=400, end=550, gene="-", log2=0, probes=2)], {"sample_id": "S"}, exact=True, labels=[0, 1, 0])
+        it = Interp(prog)
+        out = tb.guard(lambda: it.run(fi.qn, [segs, bins]), f"labels={labels} weighted={weighted}")
+        if out is None:
+            continue
+        want_w = [sum(w[i] for i in g) if weighted else Fr(len(g)) for g in seg_bins]
+        want_d = [(sum(w[i] * d[i] for i in g) / sum(w[i] for i in g)) if weighted else Fr(sum(d[i] for i in g), len(g)) for g in seg_bins]
+        want_g = ["A", "B", "B,C"]
+        c = out.data.cols if isinstance(out, GA) else {}
+        ok = all(k in c and len(c[k].v) == 3 for k in ("weight", "depth", "gene")) and all(same(a, b) for a, b in zip(c["weight"].v, want_w)) and all(same(a, b) for a, b in zip(c["depth"].v, want_d)) \
+            and list(c["gene"].v) == want_g
+        tb.cell(ok, dict(bin_labels=labels, weighted=weighted, got={k: [repr(x) for x in c[k].v] for k in ("weight", "depth", "gene") if k in c}, want=dict(weight=[str(x) for x in want_w], depth=[str(x) for x in want_d], gene=want_g)))
+    tb.done("a segment's weight / depth / genes are aggregated over other rows than its own bins when the bins' index labels are not their positions")
+
+
 def d2(chk, prog):
     chk.clause("D2", "bins <-> segments by label: iter_slices labels used positionally only on a reset_index()ed frame; HMM states carry the bins' index")
     res = Resolver(prog)
@@ -78,7 +109,9 @@ def d2(chk, prog):
     for fi, use, kind, why in pdrules.position_label_uses(prog, res, functions={TF, "cnvlib.segmetrics.do_segmetrics", "cnvlib.segmetrics.calc_intervals"}):
         n += 1
         chk.decide(why is None, "index-kind", f"{fi.name}: {kind} used as `{norm(use)[:50]}`", f"{fi.qn}::{norm(use)[:70]}", fi.loc(use), why or "")
-    chk.floor("label uses in transfer_fields", n, 1)
+    # (no floor on the lint: whether the bins are picked by label or by position is decided on literal tables below, wherever the uses sit -- in the loop, in a
+    #  comprehension or in closures the loop calls)
+    d2b(chk, prog)
     fi = prog.fn("cnvlib.segmentation.hmm.segment_hmm")
     tb = Table(chk, "index-kind", "segment_hmm hands squash_by_groups the bins (own log2, one probe each) and a state series on the bins' own index", fi.loc(), fi.qn)
     for has_probes, has_weight in itertools.product([False, True], [False, True]):
